@@ -1,7 +1,11 @@
 """C09 - adaptive quadrature results are within tolerance of the true integral.
 E1: SimpsonStack (all accept/split verdict trees to depth 3/4: pending + accepted panels tile the interval, each frame
     stores its own panel's estimate, level bound), GaussStop (two-consecutive-agreement rule over every verdict sequence),
-    Romberg (tableau recurrence over exact rationals: exact up to degree 2n-1), and the textbook recursion as work reference.
+    Romberg (module RombergP over exact rationals: exact up to degree 2n-1 and not beyond, 2^(n-1)+1 evaluations), and the
+    textbook recursion as work reference.
+E3 design level: real-valued runs of integrate_simpson, integrate_fixed and the five Gaussian integrators are reproduced bit
+    for bit (abscissae, verdicts, returned value) by SimpsonStack's own actions, RombergP and GaussStop + the shipped tables
+    over doubles (Trace_Simpson, Trace_Romberg, Trace_Gauss).
 E3: seeded runs of the eight routines with a recording integrand; TLC (Val_C09, module Quad) compares with closed-form
     (weighted) integrals, checks error cases, abscissae inside the interval, Romberg exactness on polynomials of degree
     <= 2n-1, and adaptive Simpson's work against the textbook recursion run by TLC on the same input."""
@@ -126,7 +130,7 @@ def gen(ctx, rng, n):
         if routine in WEIGHTED:
             tol = (1 if tol > 0 else -1) * 10.0 ** (-rng.uniform(3, 9))
         cases.append({"routine": routine, "cx": cx, "a": fp(a), "b": fp(b), "tol": fp(tol), "n": nrom if routine == "romberg" else 40,
-                      "budget": 2000000, "keep": 6000 if routine == "simpson" and not cx else 64, "f": f, "mustok": must,
+                      "budget": 2000000, "keep": 6000 if not cx and routine != "tanhsinh" else 64, "f": f, "mustok": must,
                       "work": routine == "simpson" and f["k"] != "poly"})
         if routine == "simpson" and rng.random() < 0.1:
             cases[-1]["n"] = rng.choice([2, 3, 5])         # shallow depth limits: the depth error path
@@ -159,19 +163,32 @@ def judge(ctx, cases):
     rows = fncommon.observe(ctx, "quad", cases, "quad", nproc=8)
     slim = [dict(r, evals=r["evals"][:2]) for r in rows]
     viols = fncommon.validate(ctx, slim, "Val_C09", "quad", nshards=12, env={"VH_KQ": KQ}, timeout=1500)
-    # design level: every abscissa, every accept/split verdict and the returned area of every real-valued
-    # integrate_simpson run against SimpsonStack's own stack actions over doubles (drift, not a violation)
+    # design level (drift, not a violation): the abscissae, verdicts and returned values of the real-valued runs against the
+    # model-checked design modules over doubles - SimpsonStack's own stack actions (Trace_Simpson), the Romberg tableau
+    # (Trace_Romberg, module RombergP) and the Gaussian stopping rule GaussStop fed from the shipped tables (Trace_Gauss)
     keys = ("id", "routine", "cx", "a", "b", "tol", "n", "evals", "calls", "ret", "val")
-    srows = [{k: r[k] for k in keys} for r in rows if r["routine"] == "simpson" and not r["cx"] and r["calls"] <= len(r["evals"])]
-    ndrift = len(ctx.drift)
+    real = [{k: r[k] for k in keys} for r in rows if not r["cx"] and r["calls"] <= len(r["evals"])]
+    jobs = []
+    srows = [r for r in real if r["routine"] == "simpson"]
     for nmax in sorted(set(r["n"] for r in srows)):
-        grp = [r for r in srows if r["n"] == nmax]
-        fncommon.validate(ctx, grp, "Trace_Simpson", "simp%d" % nmax, nshards=6, env={"VH_NMAX": nmax}, timeout=1500)
+        jobs.append(("simpson", [r for r in srows if r["n"] == nmax], "Trace_Simpson", {"VH_NMAX": nmax}))
+    jobs.append(("romberg", [r for r in real if r["routine"] == "romberg"], "Trace_Romberg", {}))
+    gauss = [r for r in real if r["routine"] in ("legendre",) + tuple(WEIGHTED)]
+    if gauss:
+        tab = ctx.path("tables.ndjson")
+        vlib.vh("tables", tab)
+        for fam in ("legendre",) + tuple(WEIGHTED):
+            jobs.append(("gauss", [r for r in gauss if r["routine"] == fam], "Trace_Gauss", {"VH_FAMILY": fam, "VH_TABLES": tab}))
+    for kind, grp, module, env in jobs:
+        if not grp:
+            continue
+        ndrift = len(ctx.drift)
+        fncommon.validate(ctx, grp, module, "dl" + kind + str(env.get("VH_NMAX", env.get("VH_FAMILY", ""))), nshards=4, env=env, timeout=1500)
         ctx.traces -= len(grp)          # counted once, above
-    st = [x for x in ctx.notes.pop("_stat", []) if x and x[0] == "simpson_runs_explained"]
-    ctx.notes["simpson_runs_validated_against_design"] = ctx.notes.get("simpson_runs_validated_against_design", 0) + len(srows)
-    ctx.notes["simpson_runs_explained_bit_for_bit"] = ctx.notes.get("simpson_runs_explained_bit_for_bit", 0) + sum(x[1] for x in st)
-    ctx.notes["simpson_runs_drifted"] = ctx.notes.get("simpson_runs_drifted", 0) + (len(ctx.drift) - ndrift)
+        st = [x for x in ctx.notes.pop("_stat", []) if x and x[0] == kind + "_runs_explained"]
+        for key, v in (("validated_against_design", len(grp)), ("explained_bit_for_bit", sum(x[1] for x in st)),
+                       ("drifted", len(ctx.drift) - ndrift)):
+            ctx.notes["%s_runs_%s" % (kind, key)] = ctx.notes.get("%s_runs_%s" % (kind, key), 0) + v
     for c, r in zip(cases, rows):
         ctx.count_case(brief(c), r["ret"] == "ok" and r["calls"] >= 7)
     for c, r in list(zip(cases, rows))[:: max(1, len(cases) // 3)][:3]:
@@ -191,7 +208,7 @@ def run(ctx):
         os.remove(cfgp)
     ctx.add_tlc(r, e1=True)
     ctx.add_tlc(vlib.tlc("GaussStop", cfg="GaussStop.cfg", workers=2, timeout=600, deque=False), e1=True)
-    ctx.add_tlc(vlib.tlc("Romberg", cfg="Gen.cfg", timeout=600), e1=True)
+    ctx.add_tlc(vlib.tlc("MC_RombergP", workers=2, timeout=600, deque=False), e1=True)
     judge(ctx, gen(ctx, rng, 1600 if ctx.tier == "quick" else 16000))
     ctx.rule = ("8 routines x seeded integrands (polynomials, a e^{cx}, a sin(wx+p), a e^{i(wx+p)}) with closed-form integrals, intervals of "
                 "length 0.05..4 in [-5,5], tol 1e-11..1e-3, real and complex; reversed / empty intervals and negative tolerances; Romberg on "
@@ -202,5 +219,5 @@ def run(ctx):
 
 
 def replay(ctx, body):
-    c = dict(body["case"], budget=2000000, keep=6000 if body["case"].get("routine") == "simpson" else 64)
+    c = dict(body["case"], budget=2000000, keep=6000 if body["case"].get("routine") != "tanhsinh" else 64)
     judge(ctx, [c, dict(c)])
